@@ -83,8 +83,17 @@ structure Rd where
   under : Under        -- b.rd
   deriving Repr
 
-/-- `NewReaderBuf` / `Reset` -/
+/-- `reset(buf, r)` with `len buf = cap` (used by `Reset`, which keeps the buffer it has) -/
 def Rd.reset (cap : Nat) (u : Under) : Rd := { cap := cap, pend := [], err := none, under := u }
+
+def minReadBufferSize : Nat := 16
+
+/-- the buffer `NewReaderBuf` actually uses: an empty one is replaced by `minReadBufferSize` bytes
+(since /repo commit 964130e; before it a zero-length buffer made the first `ReadByte` panic in `fill`) -/
+def effCap (cap : Nat) : Nat := if cap = 0 then minReadBufferSize else cap
+
+/-- `NewReaderBuf(rd, buf)` with `len buf = cap` -/
+def Rd.new (cap : Nat) (u : Under) : Rd := Rd.reset (effCap cap) u
 
 def maxConsecutiveEmptyReads : Nat := 100
 
@@ -98,7 +107,8 @@ def Rd.fillLoop : Nat → Rd → Rd
     | some e => { b' with err := some e }
     | none => if r.data.length > 0 then b' else fillLoop i b'
 
-/-- `fill`; `none` = panic("bufio: tried to fill full buffer").  The slide does not change the pending slice. -/
+/-- `fill`; `none` = panic("bufio: tried to fill full buffer") (unreachable for a reader made by `NewReaderBuf`,
+whose capacity is ≥ 1).  The slide does not change the pending slice. -/
 def Rd.fill (b : Rd) : Option Rd :=
   if b.pend.length ≥ b.cap then none else some (b.fillLoop maxConsecutiveEmptyReads)
 
@@ -305,9 +315,9 @@ structure FileRd where
   off : Nat
   version : Nat
 
-/-- `NewFileReader` with a reader factory: capacity `cap`, underlying reader `u` -/
+/-- `NewFileReader` with a reader factory (`NewCountingByteReader(NewReaderBuf(u, make([]byte, cap)))`) -/
 def FileRd.new (file : Bytes) (cap : Nat) (u : Under) : FileRd :=
-  { file := file, rd := { rd := Rd.reset cap u, count := 0 }, off := 0, version := 0 }
+  { file := file, rd := { rd := Rd.new cap u, count := 0 }, off := 0, version := 0 }
 
 /-- `Open`: the 8 header bytes through `io.ReadFull`, then `readFileHeaderFromBuffer`.
 Returns (version, compression code). -/
